@@ -55,6 +55,14 @@ class ParameterType(enum.Enum):
     raise TypeError(f'Type {self} is not compatible with value: {value}')
 
   def assert_correct_type(self, value: ParameterValueTypes) -> None:
+    try:
+      self._assert_correct_type(value)
+    except OverflowError:
+      # float('inf') cannot be converted to int and a very large int cannot be
+      # converted to float; neither is a valid value of a numeric parameter.
+      self._raise_type_error(value)
+
+  def _assert_correct_type(self, value: ParameterValueTypes) -> None:
     if self.is_numeric() and float(value) != value:
       self._raise_type_error(value)
 
